@@ -53,6 +53,28 @@ theorem set_stable (m : Nat) (ns : List Nat) :
     rw [set_effect]
     simpa using ih
 
+/-- `free_slot_no_wait`: "a send never waits while a slot is free" - a tell / ask / stop() issued on an open mailbox
+    with a free slot (and nobody queued ahead of it without a permit) holds its permit at once: its next step
+    is the push. -/
+theorem free_slot_no_wait (s : Sys) (h : Nat) (op : OpSpec) (it : Item) (hh : (h, true) ∈ s.handles)
+    (hit : opItem s.nextOid op.kind = some it) (ho : s.rxOpen = true)
+    (hroom : s.mbox.length + grantedCount s.waiters < s.cap) (hall : s.waiters.all (·.granted) = true) :
+    ∃ s', step? s (.issue h op) = some s' ∧ ⟨s.nextOid, it, true, true⟩ ∈ s'.waiters ∧
+      s'.client s.nextOid = .waiting ∧ s'.dead = s.dead := by
+  simp only [step?, Sys.issue, hh, if_true, hit, ho, not_true_eq_false, if_false, hroom, hall, and_self]
+  exact ⟨_, rfl, by simp, by simp [setF], rfl⟩
+
+/-- `full_mailbox_waits`: "a send into a full mailbox waits rather than failing, overwriting or dropping" - issued
+    on an open mailbox without a free slot, the operation is queued (FIFO, behind earlier senders), nothing is
+    recorded as failed, and the mailbox content is untouched. -/
+theorem full_mailbox_waits (s : Sys) (h : Nat) (op : OpSpec) (it : Item) (hh : (h, true) ∈ s.handles)
+    (hit : opItem s.nextOid op.kind = some it) (ho : s.rxOpen = true)
+    (hfull : ¬ (s.mbox.length + grantedCount s.waiters < s.cap ∧ s.waiters.all (·.granted) = true)) :
+    ∃ s', step? s (.issue h op) = some s' ∧ s'.waiters = s.waiters ++ [⟨s.nextOid, it, false, false⟩] ∧
+      s'.client s.nextOid = .waiting ∧ s'.dead = s.dead ∧ s'.mbox = s.mbox := by
+  simp only [step?, Sys.issue, hh, if_true, hit, ho, not_true_eq_false, if_false, hfull]
+  exact ⟨_, rfl, by simp, by simp [setF], rfl, rfl⟩
+
 /-- the control channel holds exactly one signal -/
 theorem term_channel_capacity : term_chan_cap = 1 := rfl
 
